@@ -453,7 +453,10 @@ def main(tier):
             defect = "roundtrip"
             if oc == ("exception", "UnicodeDecodeError") and new_line.split()[2] == "1":
                 defect = "qlog-header-decode"
-            ctx.witness("round trip: " + problem, {"ops": ops, "impl_output": outs, "late_encoder_stream": late},
+            exp_ser = {str(sid): {"headers": [[[a.hex(), b.hex()] for a, b in h] for h in e["headers"]],
+                                  "body": e["body"].hex(), "ended": e["ended"]} for sid, e in expected.items()}
+            ctx.witness("round trip: " + problem,
+                        {"ops": ops, "impl_output": outs, "late_encoder_stream": late, "expected": exp_ser},
                         {"defect": defect})
     batch.finish()
     ctx.notes["roundtrip_cases_with_blocked_stream"] = blocked_seen
@@ -490,3 +493,57 @@ def main(tier):
     )
     ctx.cov["exhaustive"] = True
     return ctx.finish()
+
+
+def replay(path):
+    """./check C14 --replay <file>: re-execute a recorded witness on the current tree;
+    exit 1 = still failing, 0 = no longer failing"""
+    import json
+    tree.activate()
+    from harness.impl_h3parser import H3Impl
+    d = json.load(open(path))
+    if d.get("kind") != "impl-witness":
+        n = g.replay_broken(H3Impl, d.get("broken", []))
+        print("still failing" if n else "no longer failing")
+        return 1 if n else 0
+    rp = d["replay"]
+
+    def dl(lst):
+        return [(s, bytes.fromhex(h), bool(f)) for s, h, f in lst]
+    if "ops" in rp:   # round trip
+        impl = H3Impl()
+        evs, exc = [], None
+        for line in rp["ops"]:
+            o, _ = impl.step(line)
+            if o.startswith("err "):
+                exc = o
+                break
+            if line.startswith("h3.data"):
+                evs += impl.last_events
+        got = g.norm_events(evs)
+        problem = exc or (f"closed {impl.q.closed}" if impl.h._is_done else None)
+        for sid, e in (rp.get("expected") or {}).items():
+            n = got.get(int(sid))
+            want_h = [[(bytes.fromhex(a), bytes.fromhex(b)) for a, b in h] for h in e["headers"]]
+            if problem is None and (n is None or n["headers"] != want_h or n["body"] != bytes.fromhex(e["body"])
+                                    or n["ended"] != e["ended"]):
+                problem = f"stream {sid}: received {g.show_norm({int(sid): n}) if n else 'nothing'}"
+        if problem:
+            print("VIOLATION-DETAIL round trip:", problem)
+        print("still failing" if problem else "no longer failing")
+        return 1 if problem else 0
+    role = 1 if rp.get("is_client") else 0
+    new_line = f"h3.new {role} 0 0 00000000"
+    pre = rp.get("local_sends_before", [])
+    a = dl(rp.get("chunking_a") or rp.get("order_a"))
+    b = dl(rp.get("chunking_b") or rp.get("order_b"))
+    oa = run_deliveries(H3Impl, new_line, a, pre)[0]
+    ob = run_deliveries(H3Impl, new_line, b, pre)[0]
+    if oa != ob:
+        print("VIOLATION-DETAIL the two deliveries of the same stream bytes still give different events:")
+        print("   a:", oa)
+        print("   b:", ob)
+        print("still failing")
+        return 1
+    print("no longer failing")
+    return 0
